@@ -23,5 +23,89 @@ def strip_namespace(namespace, separator, rules):
     ensures('none_passthrough', implies(rules is None, result is None))
     ensures('fresh_list', implies(rules is not None, is_list(result) and fresh(result)))
     ensures('stripped', implies(rules is not None, seq(result) == strip_spec(seq(rules), prefix)))
+    ensures('all_str', implies(rules is not None, forall('int', lambda i: implies(0 <= i and i < len(seq(result)), is_str(seq(result)[i])))))
     loop_invariant(0, 'islist', is_list(stripped) and fresh(stripped))
+    loop_invariant(0, 'all_str', forall('int', lambda i: implies(0 <= i and i < len(seq(stripped)), is_str(seq(stripped)[i]))))
     loop_invariant(0, 'stripped', seq(stripped) == strip_spec(take(_seq, _i), prefix))
+
+
+# ------------------------------------------------------------------------------------------------ absorb (C15)
+CONFIG = {
+    'attr_types': {
+        'plumpy.ports.PortNamespace._ports': 'dict',
+    },
+    'class_invariants': {'plumpy.ports.PortNamespace': 'wf_ns'},
+    'user_havoc': 'all',
+    'protected_classes': ['plumpy.ports.Port'],
+}
+
+
+@spec
+def wf_ns(ns):
+    """class invariant of PortNamespace (established by __init__/__setitem__): `_ports` maps names to Port objects"""
+    return (is_dict(ns._ports) and dlen(ns._ports) >= 0
+            and forall(lambda k: implies(dhas(ns._ports, k), is_str(k) and isinstance(dget(ns._ports, k), Port))))
+
+
+@spec
+def str_seq(xs):
+    return (is_list(xs) or is_tuple(xs)) and forall('int', lambda i: implies(0 <= i and i < len(seq(xs)), is_str(seq(xs)[i])))
+
+
+@spec
+def names_or_below(rules, name):
+    """DESIGN D.4: some rule names `name` itself or a path strictly below it -- component-wise, never by bare string prefix"""
+    return exists('int', lambda i: 0 <= i and i < len(seq(rules))
+                  and (sval(seq(rules)[i]) == sval(name) or prefixof(sval(name) + '.', sval(seq(rules)[i]))))
+
+
+@spec
+def kept(name, is_ns, exclude, include):
+    """DESIGN D.4, one level: is the source port `name` selected by the rules?"""
+    return (not (exclude is not None and len(seq(exclude)) > 0 and contains(seq(exclude), name))
+            and implies(include is not None and len(seq(include)) > 0,
+                        (names_or_below(include, name) if is_ns else contains(seq(include), name))))
+
+
+@contract('plumpy.ports.PortNamespace.absorb', props=['C15'], ghost=['N'])
+def absorb(self, port_namespace, exclude=None, include=None, namespace_options=None, N=None):
+    """N is a ghost: an arbitrary port name.  Every clause is proved for arbitrary N, i.e. for all names."""
+    requires(type_is(self, PortNamespace) and type_is(port_namespace, PortNamespace) and self is not port_namespace)
+    requires(self._ports is not port_namespace._ports)
+    requires(exclude is None or str_seq(exclude))
+    requires(include is None or str_seq(include))
+    requires(namespace_options is None or (is_dict(namespace_options) and dlen(namespace_options) >= 0
+                                           and namespace_options is not self._ports and namespace_options is not port_namespace._ports))
+    requires(is_str(N))
+    src = port_namespace._ports
+    modifies(fields(self), contents(self._ports), contents(namespace_options))
+    raises(ValueError, (exclude is not None and include is not None)
+           or (namespace_options is not None and old(dlen(namespace_options)) > 0))
+    ensures('mutually_exclusive', exclude is None or include is None)
+    ensures('ports_dict_kept', self._ports is old(self._ports))
+    ensures('result_is_selection', is_list(ret) and contains(seq(ret), N) == (
+        dhas(src, N) and kept(N, isinstance(dget(src, N), PortNamespace), exclude, include)))
+    ensures('selected_are_copied', implies(contains(seq(ret), N), dhas(self._ports, N) and fresh(dget(self._ports, N))
+                                           and same_class(dget(self._ports, N), dget(src, N))))
+    ensures('others_in_place', implies(not contains(seq(ret), N), dhas(self._ports, N) == old(dhas(self._ports, N))
+                                       and dget(self._ports, N) is old(dget(self._ports, N))))
+    loop_invariant(0, 'frame0', self._ports is old(self._ports) and dict_unchanged(self._ports) and is_dict(namespace_options)
+                   and dlen(namespace_options) >= 0
+                   and (namespace_options is old(namespace_options) or fresh(namespace_options))
+                   and implies(fresh(namespace_options), dlen(namespace_options) == 0)
+                   and implies(not fresh(namespace_options), dlen(namespace_options) <= old(dlen(namespace_options))))
+    loop_modifies(0, fields(self), contents(namespace_options))
+    loop_invariant(1, 'acc', is_list(absorbed_ports) and fresh(absorbed_ports) and self._ports is old(self._ports))
+    loop_invariant(1, 'sel_sound', implies(contains(seq(absorbed_ports), N),
+                                          N in _seen and kept(N, isinstance(dget(src, N), PortNamespace), exclude, include)))
+    loop_invariant(1, 'sel_complete', implies(N in _seen and kept(N, isinstance(dget(src, N), PortNamespace), exclude, include),
+                                              contains(seq(absorbed_ports), N)))
+    loop_invariant(1, 'copied', implies(contains(seq(absorbed_ports), N), dhas(self._ports, N) and fresh(dget(self._ports, N))
+                                        and same_class(dget(self._ports, N), dget(src, N))))
+    loop_invariant(1, 'in_place', implies(not contains(seq(absorbed_ports), N), dhas(self._ports, N) == old(dhas(self._ports, N))
+                                          and dget(self._ports, N) is old(dget(self._ports, N))))
+    loop_modifies(1, contents(self._ports), contents(absorbed_ports))
+    loop_item_fact(1, is_str(port_name) and isinstance(port, Port))
+    replay('result_is_selection', 'absorb_selection')
+    replay('loop1.sel_sound.preserved', 'absorb_selection')
+    replay('loop1.sel_complete.preserved', 'absorb_selection')
